@@ -191,6 +191,17 @@ def gen_cases(ctx):
         add("env-file", "yaml", "tasks: {t0: {command: [\"true\"], env_file: e.env}}\n", {"e.env": e.decode("latin1")})
     add("env-file-missing", "yaml", "tasks: {t0: {command: [\"true\"], env_file: nosuch.env}}\n")
     add("env-file-dir", "yaml", "tasks: {t0: {command: [\"true\"], env_file: sub}}\n", {"sub/x": "1"})
+    # a pipeline with very many dependency PATHS (24 layers of 3 stages, each depending on the whole layer before), written last layer first:
+    # loading it takes no longer than loading any other file
+    layers = 24
+    sts = []
+    for l in reversed(range(layers)):
+        for k in range(3):
+            d = {"task": "t0", "name": "l%dk%d" % (l, k)}
+            if l:
+                d["depends_on"] = ["l%dk%d" % (l - 1, j) for j in range(3)]
+            sts.append(d)
+    add("many-paths", "yaml", json.dumps({"tasks": {"t0": {"command": ["true"]}}, "pipelines": {"p0": sts}}))
     # entries that the directory listing shows but that cannot be read: a dangling symbolic link in an imported directory, as an imported
     # file, as the env_file
     link = {"symlink": "removed/gone.yaml"}
